@@ -237,6 +237,8 @@ def run(prop, tier, seed, spec, known, scratch, only, replay, t0):
         except subprocess.TimeoutExpired:
             engine_errors.append("gosym timed out after %ds on %s" % (limit, pk))
             continue
+        if os.environ.get("VERIF_ENGINE_STDERR"):
+            sys.stderr.write(r.stderr[-20000:])
         if not os.path.exists(outp):
             engine_errors.append("gosym produced no output for %s: %s" % (pk, (r.stdout + r.stderr)[-2000:]))
             continue
